@@ -62,6 +62,7 @@ type specFn struct {
 	VKind   []string `json:"vkind"`
 	VArg    []int    `json:"varg"`
 	VBlock  []int    `json:"vblock"`
+	VTail   []int    `json:"vtail"`
 	Catches [][]int  `json:"catches"`
 	DisOff  []int    `json:"disoff"`
 	DisErr  string   `json:"diserr"`
@@ -85,6 +86,10 @@ func fnsNdjson(fns []*Fn) []byte {
 		}
 		if s.Catches == nil {
 			s.Catches = [][]int{}
+		}
+		s.VTail = f.VTail
+		if s.VTail == nil || len(s.VTail) != len(s.VKind) {
+			s.VTail = make([]int, len(s.VKind))
 		}
 		if s.DisOff == nil {
 			s.DisOff = []int{}
@@ -131,6 +136,16 @@ type Totals struct {
 	Depth               int
 	Runs                int
 	WallS               float64
+	Ops                 map[string]int // opcode name -> transitions executed (which rules of Succ fired)
+}
+
+func (t *Totals) op(name string) {
+	t.mu.Lock()
+	defer t.mu.Unlock()
+	if t.Ops == nil {
+		t.Ops = map[string]int{}
+	}
+	t.Ops[name]++
 }
 
 func (t *Totals) add(r *tlc.Result) {
@@ -231,6 +246,7 @@ func Explore(c *core.Ctx, fns []*Fn, opnames []string, deviations []string, maxD
 					return
 				}
 				fr.Transitions++
+				tot.op(r.Op)
 				switch {
 				case r.Err != "":
 					if len(fr.Errs) < 20 {
